@@ -1,19 +1,35 @@
 // C13 harness: (a) file_server::normalize_path called directly; (b) real cppcms::service instances with the
-// built-in file server enabled (one per configuration, all in this process, each on its own kernel-chosen
-// loopback HTTP port) queried with raw request targets.
+// built-in file server enabled, ONE CHILD PROCESS PER CONFIGURATION (forked from this single-threaded dispatcher before
+// any cppcms object exists), each on its own kernel-chosen loopback HTTP port, queried with raw request targets.
+//
+// Per-request watchdog: a request that is not answered is its own outcome (`rq HANG <why>`), the service process is
+// killed and started again and the run continues - a defect that parks a worker thread or the event loop (e.g. open()
+// of a FIFO without a writer) must show up as an outcome line, never as a time-out of the whole run:
+//   * while a reply is outstanding the threads of the service process are inspected (/proc/<pid>/task/*/syscall): a
+//     thread that sits in open()/openat() in two inspections 60 ms apart (after 120 ms of silence) is parked in open -> HANG open, at once
+//     (the thread is then released by opening the FIFO it waits for as a writer for a moment - its path is read from the
+//     memory of the service process - so that the service need not be restarted; if that does not help it is restarted);
+//   * otherwise silence for 6 s -> the service is restarted and the request is asked once more with 12 s patience
+//     (a loaded machine is not a hang); silent again -> HANG timeout.  After the first confirmed time-out hang the
+//     patience is 2 s without the second attempt.
+//   * a reply is read up to 256 KiB, then the connection is closed and the outcome carries the suffix !B (bounded):
+//     nothing the sandbox may legitimately serve is that long (a stream from /dev/zero would never end).
 //
 // argv[1] (optional): JSON file  {"services":[ <cppcms configuration object> , ... ]}  written by checks/C13.py;
 //                     the listener (loopback, port 0) is filled in here.
 // case lines:
 //   np|npi|rs <hex>     -> <tag> <hex of normalize_path(input)>
-//   rq <k> <hex>        -> rq <hex of the complete reply of service k to "GET <raw> HTTP/1.0">  ("-" = nothing, "!T" suffix = timeout)
+//   rq <k> <hex>        -> rq <hex of the complete reply of service k to "GET <raw> HTTP/1.0">[!B]   |   rq HANG open|timeout
 #include <cppcms/service.h>
 #include <cppcms/application.h>
 #include <cppcms/applications_pool.h>
+#include <cppcms/mount_point.h>
 #include <cppcms/json.h>
 #include <booster/log.h>
 #include "internal_file_server.h"
 #include <sys/socket.h>
+#include <sys/wait.h>
+#include <sys/prctl.h>
 #include <netinet/in.h>
 #include <netinet/tcp.h>
 #include <arpa/inet.h>
@@ -22,28 +38,41 @@
 #include <signal.h>
 #include <errno.h>
 #include <string.h>
+#include <dirent.h>
+#include <fcntl.h>
+#include <time.h>
 #include <fstream>
-#include <thread>
 #include <memory>
-#include <atomic>
+#include <set>
+#include <map>
 #include <dlfcn.h>
 #include "hexio.h"
 using namespace hx;
 
 // The services are configured with port 0 (the kernel picks a free one at bind time, so no other process can take
-// it in between); the port is learnt by interposing listen(): services are started one after the other and each
-// reports the port of the TCP socket it starts listening on.
-static std::atomic<int> last_listen_port(0);
+// it in between); the port is learnt by interposing listen(): the service child reports the port of the TCP socket it
+// starts listening on through a pipe to the dispatcher.
+static int report_fd = -1;
 extern "C" int listen(int fd, int backlog)
 {
 	typedef int (*fn)(int, int);
 	static fn real = (fn)dlsym(RTLD_NEXT, "listen");
 	int r = real(fd, backlog);
-	if (r == 0) {
+	if (r == 0 && report_fd >= 0) {
 		sockaddr_in a; socklen_t l = sizeof(a); memset(&a, 0, sizeof(a));
-		if (getsockname(fd, (sockaddr *)&a, &l) == 0 && a.sin_family == AF_INET) last_listen_port = ntohs(a.sin_port);
+		if (getsockname(fd, (sockaddr *)&a, &l) == 0 && a.sin_family == AF_INET) {
+			int port = ntohs(a.sin_port);
+			ssize_t w = write(report_fd, &port, sizeof(port)); (void)w;
+			close(report_fd); report_fd = -1;
+		}
 	}
 	return r;
+}
+
+static double now()
+{
+	timespec ts; clock_gettime(CLOCK_MONOTONIC, &ts);
+	return ts.tv_sec + ts.tv_nsec * 1e-9;
 }
 
 static int connect_to(int port)
@@ -56,16 +85,121 @@ static int connect_to(int port)
 }
 
 struct instance {
+	pid_t pid;
 	int port;
-	std::unique_ptr<cppcms::service> srv;
-	std::thread th;
+	cppcms::json::value cfg;
+	instance() : pid(-1), port(0) {}
 };
 
-static std::string request_once(int port, std::string const &raw, bool &timeout, int wait_ms)
+static void stop(instance &in)
 {
-	timeout = false;
-	int fd = connect_to(port);
-	if (fd < 0) return "CONNECT-FAILED";
+	if (in.pid > 0) { kill(in.pid, SIGKILL); int st; waitpid(in.pid, &st, 0); }
+	in.pid = -1; in.port = 0;
+}
+
+static bool spawn(instance &in)
+{
+	int p[2];
+	if (pipe(p) != 0) return false;
+	std::cout.flush();
+	pid_t pid = fork();
+	if (pid < 0) { close(p[0]); close(p[1]); return false; }
+	if (pid == 0) {
+		// the service process: dies with the dispatcher, never touches the dispatcher's stdin/stdout
+		prctl(PR_SET_PDEATHSIG, SIGKILL);
+		close(p[0]);
+		int nul = open("/dev/null", O_RDWR);
+		if (nul >= 0) { dup2(nul, 0); dup2(nul, 1); }
+		signal(SIGPIPE, SIG_IGN);
+		report_fd = p[1];
+		try {
+			// "c13_async_handler": the file server is mounted here with async=true, the only way to reach async_file_handler:
+			// cppcms::service itself always constructs file_server(srv) - file_server.async only mounts it asynchronously
+			bool direct = in.cfg.get("c13_async_handler", false);
+			if (direct) in.cfg["file_server"]["enable"] = false;
+			cppcms::service srv(in.cfg);
+			if (direct)
+				srv.applications_pool().mount(cppcms::create_pool<cppcms::impl::file_server>(true), cppcms::mount_point(""), cppcms::app::asynchronous);
+			srv.run();
+		}
+		catch (std::exception const &e) {
+			std::string m = std::string("SERVICE-THREW ") + e.what() + "\n";
+			ssize_t w = write(2, m.data(), m.size()); (void)w;
+			_exit(3);
+		}
+		_exit(0);
+	}
+	close(p[1]);
+	pollfd pf; pf.fd = p[0]; pf.events = POLLIN; pf.revents = 0;
+	int port = 0;
+	if (poll(&pf, 1, 60000) > 0) { if (read(p[0], &port, sizeof(port)) != (ssize_t)sizeof(port)) port = 0; }
+	close(p[0]);
+	in.pid = pid; in.port = port;
+	if (port == 0) { stop(in); return false; }
+	int tries = 0, fd = -1;
+	while ((fd = connect_to(port)) < 0 && tries++ < 400) usleep(5000);
+	if (fd >= 0) close(fd);
+	return true;
+}
+
+// threads of the service process that are inside open()/openat() right now -> address of the path argument
+static std::map<int, unsigned long> threads_in_open(pid_t pid)
+{
+	std::map<int, unsigned long> r;
+	char dn[64]; snprintf(dn, sizeof(dn), "/proc/%d/task", (int)pid);
+	DIR *d = opendir(dn);
+	if (!d) return r;
+	while (dirent *e = readdir(d)) {
+		if (e->d_name[0] == '.') continue;
+		char fn[128]; snprintf(fn, sizeof(fn), "/proc/%d/task/%s/syscall", (int)pid, e->d_name);
+		int fd = open(fn, O_RDONLY);
+		if (fd < 0) continue;
+		char buf[160]; ssize_t n = read(fd, buf, sizeof(buf) - 1); close(fd);
+		if (n <= 0) continue;
+		buf[n] = 0;
+		long nr = -1; unsigned long a1 = 0, a2 = 0;
+		int got = sscanf(buf, "%ld %lx %lx", &nr, &a1, &a2);
+		if (got >= 2 && nr == 2 /* open(path,..) */) r[atoi(e->d_name)] = a1;
+		else if (got >= 3 && nr == 257 /* openat(dfd,path,..) */) r[atoi(e->d_name)] = a2;
+	}
+	closedir(d);
+	return r;
+}
+
+// a thread parked in open() of a FIFO that has no writer is released by becoming that writer for a moment (the path is read
+// from the memory of the service process); true when afterwards no thread is parked any more, so the service can be kept
+static bool release_parked(pid_t pid, std::map<int, unsigned long> const &parked)
+{
+	char fn[64]; snprintf(fn, sizeof(fn), "/proc/%d/mem", (int)pid);
+	int mem = open(fn, O_RDONLY);
+	if (mem < 0) return false;
+	for (std::map<int, unsigned long>::const_iterator i = parked.begin(); i != parked.end(); ++i) {
+		char path[4097];
+		ssize_t n = pread(mem, path, sizeof(path) - 1, (off_t)i->second);
+		if (n <= 0) continue;
+		path[n] = 0;
+		int w = open(path, O_WRONLY | O_NONBLOCK);
+		if (w >= 0) close(w);
+	}
+	close(mem);
+	for (int tries = 0; tries < 20; tries++) {
+		usleep(10000);
+		std::map<int, unsigned long> cur = threads_in_open(pid);
+		bool still = false;
+		for (std::map<int, unsigned long>::const_iterator i = parked.begin(); i != parked.end(); ++i) if (cur.count(i->first)) still = true;
+		if (!still) return true;
+	}
+	return false;
+}
+
+enum outcome { REPLY, BOUNDED, SILENT, PARKED, PARKED_RELEASED, NOCONNECT };
+static const size_t REPLY_BOUND = 256 * 1024;
+
+static outcome request_once(instance &in, std::string const &raw, std::string &buf, double patience)
+{
+	buf.clear();
+	int fd = connect_to(in.port);
+	if (fd < 0) return NOCONNECT;
 	std::string rq = "GET " + raw + " HTTP/1.0\r\n\r\n";
 	size_t off = 0;
 	while (off < rq.size()) {
@@ -73,26 +207,69 @@ static std::string request_once(int port, std::string const &raw, bool &timeout,
 		if (n <= 0) { if (n < 0 && errno == EINTR) continue; break; }
 		off += n;
 	}
-	std::string buf;
+	double t_last = now();          // time of the last byte received (or of the request)
+	std::map<int, unsigned long> parked_before;
+	bool have_before = false;
+	outcome res = REPLY;
 	for (;;) {
 		pollfd p; p.fd = fd; p.events = POLLIN; p.revents = 0;
-		int r = poll(&p, 1, wait_ms);
-		if (r <= 0) { timeout = true; break; }
-		char tmp[65536];
-		ssize_t n = ::recv(fd, tmp, sizeof(tmp), 0);
-		if (n <= 0) break;
-		buf.append(tmp, n);
+		int r = poll(&p, 1, 60);
+		if (r < 0 && errno == EINTR) continue;
+		if (r > 0) {
+			char tmp[65536];
+			ssize_t n = ::recv(fd, tmp, sizeof(tmp), 0);
+			if (n <= 0) break;
+			buf.append(tmp, n);
+			t_last = now();
+			have_before = false;
+			if (buf.size() > REPLY_BOUND) { res = BOUNDED; break; }
+			continue;
+		}
+		double quiet = now() - t_last;
+		if (quiet >= 0.12) {
+			std::map<int, unsigned long> cur = threads_in_open(in.pid);
+			if (have_before) {
+				std::map<int, unsigned long> same;
+				for (std::map<int, unsigned long>::const_iterator i = cur.begin(); i != cur.end(); ++i)
+					if (parked_before.count(i->first)) same[i->first] = i->second;
+				if (!same.empty()) {
+					res = release_parked(in.pid, same) ? PARKED_RELEASED : PARKED;
+					break;
+				}
+			}
+			parked_before = cur; have_before = true;
+		}
+		if (quiet >= patience) { res = SILENT; break; }
 	}
 	close(fd);
-	return buf;
+	return res;
 }
 
-// GET is idempotent: a reply that did not arrive in time (machine under load) is asked for once more, patiently
-static std::string request(int port, std::string const &raw, bool &timeout)
+static bool timeout_hang_seen = false;
+
+static std::string request(instance &in, std::string const &raw)
 {
-	std::string r = request_once(port, raw, timeout, 4000);
-	if (timeout || r == "CONNECT-FAILED") r = request_once(port, raw, timeout, 30000);
-	return r;
+	std::string buf;
+	if (in.pid <= 0 && !spawn(in)) return "rq HANG service-does-not-start";
+	outcome o = request_once(in, raw, buf, timeout_hang_seen ? 2.0 : 6.0);
+	if (o == NOCONNECT) {           // the service died (crash on the previous request?): start it again and ask again
+		stop(in);
+		if (!spawn(in)) return "rq HANG service-does-not-start";
+		o = request_once(in, raw, buf, 12.0);
+	}
+	else if (o == SILENT && !timeout_hang_seen) {   // a loaded machine is not a hang: fresh service, patient second attempt
+		stop(in);
+		if (!spawn(in)) return "rq HANG service-does-not-start";
+		o = request_once(in, raw, buf, 12.0);
+	}
+	switch (o) {
+	case REPLY: return "rq " + hex(buf);
+	case BOUNDED: stop(in); return "rq " + hex(buf) + "!B";
+	case PARKED: stop(in); return "rq HANG open";
+	case PARKED_RELEASED: return "rq HANG open";      // the service lives on: the parked thread was released
+	case SILENT: timeout_hang_seen = true; stop(in); return "rq HANG timeout";
+	default: stop(in); return "rq HANG no-connection";
+	}
 }
 
 int main(int argc, char **argv)
@@ -109,24 +286,13 @@ int main(int argc, char **argv)
 			cppcms::json::array const &sv = all["services"].array();
 			for (size_t i = 0; i < sv.size(); i++) {
 				std::unique_ptr<instance> in(new instance());
-				in->port = 0;
-				cppcms::json::value cfg = sv[i];
-				cfg["service"]["list"][0]["api"] = "http";
-				cfg["service"]["list"][0]["ip"] = "127.0.0.1";
-				cfg["service"]["list"][0]["port"] = in->port;
-				cfg["service"]["disable_global_exit_handling"] = true;
-				cfg["logging"]["level"] = "emergency";
-				in->srv.reset(new cppcms::service(cfg));
-				cppcms::service *s = in->srv.get();
-				last_listen_port = 0;
-				in->th = std::thread([s]() { try { s->run(); } catch (std::exception const &e) { std::cout << "SERVICE-THREW " << e.what() << std::endl; _exit(3); } });
-				for (int tries = 0; tries < 6000 && last_listen_port == 0; tries++) usleep(5000);
-				in->port = last_listen_port;
-				if (in->port == 0) { std::cout << "HARNESS-EXCEPTION service " << i << " did not start listening" << std::endl; _exit(2); }
-				int tries = 0, fd = -1;
-				while ((fd = connect_to(in->port)) < 0 && tries++ < 400) usleep(5000);
-				if (fd >= 0) close(fd);
-				inst.push_back(std::move(in));
+				in->cfg = sv[i];
+				in->cfg["service"]["list"][0]["api"] = "http";
+				in->cfg["service"]["list"][0]["ip"] = "127.0.0.1";
+				in->cfg["service"]["list"][0]["port"] = 0;
+				in->cfg["service"]["disable_global_exit_handling"] = true;
+				in->cfg["logging"]["level"] = "emergency";
+				inst.push_back(std::move(in));      // started on first use
 			}
 		}
 		std::string line;
@@ -142,17 +308,15 @@ int main(int argc, char **argv)
 			else if (v.size() == 3 && v[0] == "rq") {
 				size_t k = atoi(v[1].c_str());
 				if (k >= inst.size()) { std::cout << "BAD-CASE no such service" << std::endl; continue; }
-				bool to = false;
-				std::string r = request(inst[k]->port, unhex(v[2]), to);
-				std::cout << "rq " << hex(r) << (to ? "!T" : "") << std::endl;
+				std::cout << request(*inst[k], unhex(v[2])) << std::endl;
 			}
 			else std::cout << "BAD-CASE" << std::endl;
 		}
-		for (size_t i = 0; i < inst.size(); i++) inst[i]->srv->shutdown();
-		for (size_t i = 0; i < inst.size(); i++) inst[i]->th.join();
+		for (size_t i = 0; i < inst.size(); i++) stop(*inst[i]);
 	}
 	catch (std::exception const &e) {
 		std::cout << "HARNESS-EXCEPTION " << e.what() << std::endl;
+		for (size_t i = 0; i < inst.size(); i++) stop(*inst[i]);
 		rc = 2;
 		_exit(rc);
 	}
